@@ -330,6 +330,62 @@ def policy_search(chk, name, cases, results):
     return None
 
 
+
+# --------------------------------------------------------------------------------- long series
+
+
+def long_case(rng):
+    n = rng.choice([4096, 4097, 4100, 8192, 8200]) + rng.choice([0, 1, 7])
+    m = rng.choice([1, 2, 5])
+    lv = [rng.randint(-4, 4) for _ in range(7)]
+    cpts = sorted(rng.sample(range(1, n), 6))
+    x = [lv[sum(1 for c in cpts if c <= i)] + rng.choice([0, 0, 1, -1, 2]) for i in range(n)]
+    return {"n": n, "m": m, "x": x, "scale": rng.choice([0.5, 1.0, 3.0])}
+
+
+def impl_long(case):
+    from skchange.change_detectors import PELT
+    from skchange.costs import L2Cost
+
+    X = np.array(case["x"], dtype=float).reshape(-1, 1)
+    try:
+        det = PELT(L2Cost(), penalty_scale=case["scale"], min_segment_length=case["m"]).fit(X)
+        opt = np.asarray(det.transform_scores(X)).reshape(-1)
+        y = det.predict(X)
+        return {"outcome": "ok", "cps": [int(v) for v in y["ilocs"]], "opt": [float(v) for v in opt], "pen": float(det.penalty_)}
+    except Exception as ex:
+        return {"outcome": "other:" + type(ex).__name__, "msg": str(ex)[:200]}
+
+
+def oracle_long(case, r):
+    """optimal partitioning without pruning, vectorised over the last-segment starts, from prefix sums computed here"""
+    if r["outcome"] != "ok":
+        return f"PELT did not run to completion: {r['outcome']} {r.get('msg', '')}"
+    x = np.array(case["x"], dtype=float)
+    n, m, K = case["n"], case["m"], r["pen"]
+    S1, S2 = np.concatenate(([0.0], np.cumsum(x))), np.concatenate(([0.0], np.cumsum(x * x)))
+    cost = lambda s, e: (S2[e] - S2[s]) - (S1[e] - S1[s]) ** 2 / (e - s)  # noqa: E731
+    F = np.full(n + 1, np.inf)
+    F[0] = -K
+    for e in range(m, n + 1):
+        s = np.concatenate(([0], np.arange(m, e - m + 1)))
+        F[e] = np.min(F[s] + cost(s, e) + K)
+    cps = r["cps"]
+    b = [0] + cps + [n]
+    if any(b[i + 1] - b[i] < m for i in range(len(b) - 1)):
+        return f"returned changepoints {cps} leave a segment shorter than min_segment_length={m} (n={n})"
+    val = sum(cost(b[i], b[i + 1]) for i in range(len(b) - 1)) + K * len(cps)
+    tol = 1e-7 * (1 + abs(F[n]))
+    if abs(val - F[n]) > tol:
+        return f"n={n}: returned segmentation {cps} has penalised cost {val!r}; the optimum is {F[n]!r}"
+    opt = np.array(r["opt"])
+    bad = np.where(np.abs(opt[m - 1:] - F[m:]) > 1e-7 * (1 + np.abs(F[m:])))[0]
+    if len(bad):
+        e = int(bad[0]) + m
+        return f"n={n}: score of prefix {e} is {opt[e - 1]!r}; the optimal penalised cost of that prefix is {F[e]!r}"
+    return None
+
+
 def run(chk: core.Check):
     tier = chk.tier
     N = {"quick": 3000, "thorough": 60000}[tier]
@@ -365,6 +421,9 @@ def run(chk: core.Check):
     if corpus_b:
         chk.run_stream("corpus-builtin", corpus_b, impl_builtin, oracle=oracle_builtin, skip=skip_builtin,
                        nontrivial=nontriv, site="PELT/builtin")
+    rng = core.rng_for(chk.seed, "C02/long")
+    chk.run_stream("long", [long_case(rng) for _ in range({"quick": 4, "thorough": 16}[tier])], impl_long, oracle=oracle_long, site="PELT/long",
+                   per_case_timeout=300, nontrivial=nontriv, describe=lambda c: {k: v for k, v in c.items() if k != "x"})
     rng = core.rng_for(chk.seed, "C02/boundary")
     mined = mine_boundary(rng, {"quick": 6000, "thorough": 120000}[tier], nmax)
     chk.notes["boundary_mined"] = len(mined)
@@ -385,6 +444,11 @@ def replay(path):
     case = v["case"]
     if case is None:
         print(json.dumps(v, indent=1)[:3000])
+        return 0
+    if v["stream"] == "long":
+        r = impl_long(case)
+        print("implementation:", {k: (r[k] if k != "opt" else "...") for k in r})
+        print("oracle:", oracle_long(case, r))
         return 0
     if v["stream"] in ("builtin", "corpus-builtin"):
         r = impl_builtin(case)
